@@ -5,7 +5,9 @@ from .util import call
 
 ID = 'C01'
 LEAN_MODULE = 'KernProofs.C01'
-THEOREMS = ['KM.C01.C01_canon', 'KM.C01.C01_canon_export', 'KM.C01.canon_sameContent', 'KM.C01.C01_export_is_render_canon', 'KM.C01.C01_cell_fixed_point', 'KM.C01.canon_idem', 'KM.Spec.sortedSet_congr', 'KM.Spec.sortedSet_idem', 'KM.C03.C03_single']
+EXTRA_MODULES = ['KernProofs.C01Norm']
+THEOREMS = ['KM.C01.C01_canon', 'KM.C01.C01_canon_export', 'KM.C01.canon_sameContent', 'KM.C01.C01_export_is_render_canon', 'KM.C01.C01_cell_fixed_point', 'KM.C01.canon_idem', 'KM.Spec.sortedSet_congr', 'KM.Spec.sortedSet_idem', 'KM.C03.C03_single',
+            'KM.C01N.C01_normal_form_fixed_point', 'KM.C01N.C01_normalForm_idem', 'KM.C01N.RT_P0']
 FINGERPRINTS = ['tokens.NoteRestToken.export', 'tokens.ChordToken.export', 'tokenizers.KernTokenizer.tokenize', 'tokenizers.EkernTokenizer.tokenize',
                 'base_antlr_spine_parser_listener', 'exporter.Exporter.export_string', 'exporter.get_kern_from_ekern', 'importer.Importer',
                 'kern_spine_importer.KernSpineImporter.import_token']
